@@ -322,8 +322,25 @@ def check_matrix_kernel(chk, R, model, rel, fname, sub, num, spec_fn, what, swap
     for c in fr.checked:
         chk.ob(R['frame'], True, rel, fname, c, sample=c)
     got = {pq: canon_F(k.block(pq)) for pq in k.blocks}
-    cmp_got = {pq: transform(v, k) for pq, v in got.items()} if transform else got
     exp = spec_fn(fr, k)
+    # hoisted loop-invariant scalars (rot = d*d + h*h/12 computed once before the loops) are opaque '$name' atoms with their
+    # definition in the frame: those that are not geometry atoms of the specification are put back in
+    spec_atoms = {a for v in exp.values() for a in v.atoms()}
+    kf = kern_frame(k)
+    for _ in range(4):
+        extra = sorted({a for v in got.values() for a in v.atoms() if a.startswith('$') and a not in spec_atoms and a in kf})
+        if not extra:
+            break
+        mp = {}
+        for a in extra:
+            try:
+                mp[a] = canon_F(expand_frame(kf, a))
+            except (ValueError, KeyError):
+                pass
+        if not mp:
+            break
+        got = {pq: v.subs(mp) for pq, v in got.items()}
+    cmp_got = {pq: transform(v, k) for pq, v in got.items()} if transform else got
     bad = []
     for pq in sorted(set(cmp_got) | set(exp)):
         g = cmp_got.get(pq, P())
